@@ -9,7 +9,7 @@ Bool == {TRUE, FALSE}
 \* all shapes up to K, plus long inner products (m = n = 1, l up to KV: every residue of the unroll width)
 Init == \/ \E m \in 1..K, l \in 1..K, n \in 1..K, ta \in Bool, tb \in Bool, bad \in 0..1 :
              c = [m |-> m, l |-> l, n |-> n, ta |-> ta, tb |-> tb, bad |-> bad]
-        \/ \E l \in (K + 1)..KV, ta \in Bool, tb \in Bool, bad \in 0..1 :
+        \/ \E l \in ((K + 1)..KV) \cup {64, 65, 70, 96, 97, 130}, ta \in Bool, tb \in Bool, bad \in 0..1 :
              c = [m |-> 1, l |-> l, n |-> 1, ta |-> ta, tb |-> tb, bad |-> bad]
 Next == UNCHANGED c
 Spec == Init /\ [][Next]_c
